@@ -2,7 +2,7 @@
 # seed_matrix.sh : apply every confirmed seeded change to /repo in turn, run the quick check of the property
 # it breaks, undo; writes seeded/MATRIX.md.  (Uses /repo itself: do not run other checks meanwhile.)
 cd /verif
-out=seeded/MATRIX.md
+out=${MATRIX_OUT:-seeded/MATRIX.md}
 # evidence and replays written while a patch is applied describe the patched tree: keep the real ones aside
 save=$(mktemp -d); cp -a evidence $save/evidence; ls replays > $save/replays.list
 {
